@@ -21,6 +21,14 @@ def load_catalogue():
 
 
 def apply_variant(repo, v):
+    if "revert_commit" in v:
+        d = subprocess.run(["git", "-C", "/repo", "diff", v["revert_commit"] + "^", v["revert_commit"], "--", "src"], capture_output=True, text=True)
+        if d.returncode != 0 or not d.stdout:
+            return False, "cannot diff commit %s" % v["revert_commit"]
+        r = subprocess.run(["patch", "-R", "-p1", "--no-backup-if-mismatch", "-s"], cwd=repo, input=d.stdout, capture_output=True, text=True)
+        if r.returncode != 0:
+            return False, "reverse patch of %s does not apply: %s" % (v["revert_commit"], (r.stdout + r.stderr)[-200:])
+        return True, ""
     path = os.path.join(repo, v["file"])
     with open(path) as f:
         s = f.read()
